@@ -10,7 +10,9 @@
 (define-fun unfold_pow10 ((k Int)) Bool (= (pow10 k) (ite (<= k 0) 1 (* 10 (pow10 (- k 1))))))
 ;@unfold
 (define-fun unfold_scaled ((v Int) (k Int)) Bool (= (scaled v k) (ite (<= k 0) v (* 10 (scaled v (- k 1))))))
-(define-fun isdigits ((d (Array Int Int)) (o Int) (k Int)) Bool (forall ((i Int)) (! (=> (and (<= 0 i) (< i k)) (and (<= 48 (select d (+ o i))) (<= (select d (+ o i)) 57))) :pattern ((select d (+ o i))))))
+; all of d[o .. o+k) are decimal digits. The bound variable is the absolute position, so that the trigger
+; (select d i) matches every read of d whatever offset arithmetic produced the index.
+(define-fun isdigits ((d (Array Int Int)) (o Int) (k Int)) Bool (forall ((i Int)) (! (=> (and (<= o i) (< i (+ o k))) (and (<= 48 (select d i)) (<= (select d i) 57))) :pattern ((select d i)))))
 (define-fun sgn ((x Int)) Int (ite (< x 0) (- 1) (ite (> x 0) 1 0)))
 ; comparison of two non-negative decimals  xi + xf/10^xk  and  yi + yf/10^yk  (0 <= xf < 10^xk, 0 <= yf < 10^yk)
 ; by cross-scaling; adequacy w.r.t. the order on Q is proved in /verif/lean/SpecAdequacy.lean
@@ -39,3 +41,11 @@
 (define-fun natval_ge_pow10 ((x (Array Int Int)) (o Int) (k Int)) Bool (=> (and (>= k 1) (isdigits x o k) (>= (select x o) 49)) (>= (natval x o k) (pow10 (- k 1)))))
 ;@lemma
 (define-fun pow10_mono ((a Int) (b Int)) Bool (=> (and (<= 0 a) (<= a b)) (<= (pow10 a) (pow10 b))))
+; p is the digit string x[ox .. ox+xl) padded with '0' to infinity (total definition of p)
+;@definitional
+(define-fun ispad ((x (Array Int Int)) (ox Int) (xl Int) (p (Array Int Int))) Bool
+  (forall ((i Int)) (! (= (select p i) (ite (and (<= 0 i) (< i xl)) (select x (+ ox i)) 48)) :pattern ((select p i)))))
+;@lemma value of a zero-padded digit string
+(define-fun natval_pad ((x (Array Int Int)) (ox Int) (xl Int) (p (Array Int Int)) (k Int)) Bool
+  (=> (and (ispad x ox xl p) (>= xl 0) (>= k 0))
+      (= (natval p 0 k) (ite (<= k xl) (natval x ox k) (scaled (natval x ox xl) (- k xl))))))
